@@ -200,15 +200,21 @@ var groupUUID = map[string]string{
 	"qn": "0ec97956-c451-48a0-a180-1ce766623e31", "qf": "1e1ce1e1-9288-4504-869e-022d10030001", "qu": "1e1ce1e1-9288-4504-869e-022d10030002",
 	"ql": "1e1ce1e1-9288-4504-869e-022d10030003", "qt": "1e1ce1e1-9288-4504-869e-022d10030004", "qs": "1e1ce1e1-9288-4504-869e-022d10030005",
 	"qx": "1e1ce1e1-9288-4504-869e-022d10030006", "qc": "1e1ce1e1-9288-4504-869e-022d10030007",
+	"l1": "1e1ce1e1-9288-4504-869e-022d10030011", "l2": "1e1ce1e1-9288-4504-869e-022d10030012", "l3": "1e1ce1e1-9288-4504-869e-022d10030013", "l4": "1e1ce1e1-9288-4504-869e-022d10030014",
+	"l5": "1e1ce1e1-9288-4504-869e-022d10030015", "l6": "1e1ce1e1-9288-4504-869e-022d10030016", "l7": "1e1ce1e1-9288-4504-869e-022d10030017",
 }
 var groupQuery = map[string]string{"qn": `name = "bob"`, "qf": `f1 != ""`, "qu": `tel != ""`, "ql": `language = "fra"`, "qt": `tickets > 0`, "qs": `last_seen_on != ""`, "qx": `tel != "+12065550002"`,
 	// the contact was created at 02:00 UTC on 2018-01-02: still the day before in America/Guayaquil, the sessions' timezone
-	"qc": `created_on > 2018-01-01`}
+	"qc": `created_on > 2018-01-01`,
+	"l1": `lstate = "Kigali City"`, "l2": `lstate = "Gasabo"`, "l3": `ldistrict = "Gasabo"`, "l4": `ldistrict = "Kigali City"`, "l5": `lward = "Ndera"`, "l6": `lstate != ""`, "l7": `ldistrict = ""`}
 
 // groups whose query the specification evaluates itself (ContactTrace!RefMatch) instead of trusting the real evaluator
 // ("dayafter": created_on falls on a later calendar day than the argument - decided from day numbers that Go's time package
 // gives for the contact's created_on in the evaluating zone, not by the evaluator)
-var groupRef = map[string][2]string{"qx": {"nottel", "+12065550002"}, "qc": {"dayafter", "2018-01-01"}}
+var groupRef = map[string][2]string{"qx": {"nottel", "+12065550002"}, "qc": {"dayafter", "2018-01-01"},
+	// location fields are queried by the NAME of the location they hold at their own level (a state field by its state)
+	"l1": {"locname", "lstate|Kigali City"}, "l2": {"locname", "lstate|Gasabo"}, "l3": {"locname", "ldistrict|Gasabo"}, "l4": {"locname", "ldistrict|Kigali City"},
+	"l5": {"locname", "lward|Ndera"}, "l6": {"locset", "lstate|"}, "l7": {"locunset", "ldistrict|"}}
 var groupName = map[string]string{}
 
 func init() {
@@ -495,6 +501,7 @@ type QG struct {
 	CDay        int    `json:"cday"`     // ref "dayafter": civil day number of the contact's created_on in the merged environment's zone
 	CDayBase    int    `json:"cdaybase"` // ... in the session's own zone
 	QDay        int    `json:"qday"`     // ... of the argument
+	LName       string `json:"lname"`    // refs "locname" / "locset" / "locunset": name of the location the field holds AT ITS OWN LEVEL ("" = none)
 }
 
 func queryGroups(env envs.Environment, sa flows.SessionAssets, c *flows.Contact) []QG {
@@ -525,6 +532,23 @@ func queryGroups2(env, base envs.Environment, sa flows.SessionAssets, c *flows.C
 			}
 			if r, ok := groupRef[groupName[string(g.UUID())]]; ok && g.Query() == groupQuery[groupName[string(g.UUID())]] {
 				qg.Ref, qg.Arg = r[0], r[1]
+				if strings.HasPrefix(r[0], "loc") {
+					key := strings.SplitN(r[1], "|", 2)[0]
+					qg.Arg = strings.SplitN(r[1]+"|", "|", 3)[1]
+					if fv := c.Fields()[key]; fv != nil && fv.Value != nil {
+						path := ""
+						switch key {
+						case "lstate":
+							path = string(fv.State)
+						case "ldistrict":
+							path = string(fv.District)
+						case "lward":
+							path = string(fv.Ward)
+						}
+						parts := strings.Split(path, " > ")
+						qg.LName = strings.TrimSpace(parts[len(parts)-1])
+					}
+				}
 				if r[0] == "dayafter" {
 					if qd, err := time.Parse("2006-01-02", r[1]); err == nil {
 						qg.QDay = civilDay(qd)
@@ -648,6 +672,49 @@ func c03Apply(args []string) error {
 		lw.w.Flush()
 		fmt.Println(string(mustJSON(M{"cases": n, "lines": lw.n, "drift": 0, "drift_examples": []string{}})))
 		return nil
+	}
+	if *shard == 0 {
+		// location fields: a state, a district and a ward field receive paths of every depth (their own level, deeper, shallower,
+		// a bare name, nothing, nonsense), each twice; query groups on those fields are decided by the specification from the
+		// name of the location the field holds at its own level
+		var la M
+		json.Unmarshal(contactAssets("l1", "l2", "l3", "l4", "l5", "l6", "l7"), &la)
+		la["fields"] = append(la["fields"].([]any), M{"uuid": "f1b5aea6-6586-41c7-9020-1a6326cc6581", "key": "lstate", "name": "LState", "type": "state"},
+			M{"uuid": "f1b5aea6-6586-41c7-9020-1a6326cc6582", "key": "ldistrict", "name": "LDistrict", "type": "district"},
+			M{"uuid": "f1b5aea6-6586-41c7-9020-1a6326cc6583", "key": "lward", "name": "LWard", "type": "ward"})
+		la["locations"] = []M{{"name": "Rwanda", "aliases": []string{}, "children": []M{
+			{"name": "Kigali City", "aliases": []string{"Kigali"}, "children": []M{{"name": "Gasabo", "aliases": []string{}, "children": []M{{"name": "Ndera"}, {"name": "Gisozi"}}}, {"name": "Nyarugenge", "children": []M{{"name": "Gitega"}}}}},
+			{"name": "Eastern Province", "aliases": []string{}, "children": []M{{"name": "Rwamagana", "children": []M{{"name": "Kigabiro"}}}}}}}}
+		lsa, lerr := loadAssets(mustJSON(la))
+		if lerr != nil {
+			return fmt.Errorf("location assets: %w", lerr)
+		}
+		lenv := flows.NewAssetsEnvironment(envs.NewBuilder().WithDefaultCountry("RW").Build(), lsa.Locations())
+		leng := engine.NewBuilder().Build()
+		lc, lerr := flows.ReadContact(lsa, mustJSON(M{"uuid": contactUUID, "id": 1234, "name": "bob", "language": "eng", "status": "active", "created_on": "2018-01-02T02:00:00Z", "urns": []string{"tel:+12065550001"}}), assets.IgnoreMissing)
+		if lerr != nil {
+			return fmt.Errorf("location contact: %w", lerr)
+		}
+		for _, fk := range [][2]string{{"lstate", "LState"}, {"ldistrict", "LDistrict"}, {"lward", "LWard"}} {
+			for vi, val := range []string{"Rwanda > Kigali City", "Rwanda > Kigali City > Gasabo", "Rwanda > Kigali City > Gasabo > Ndera", "Kigali City", "Gasabo", "Ndera", "", "Rwanda > Eastern Province > Rwamagana",
+				"nowhere", "Rwanda > Kigali City > Gasabo > Ndera", "Rwanda > Kigali City"} {
+				mj := mustJSON(M{"type": "field", "field": M{"key": fk[0], "name": fk[1]}, "value": val})
+				mod, merr := modifiers.ReadModifier(lsa, mj, assets.IgnoreMissing)
+				if merr != nil {
+					return fmt.Errorf("location modifier: %w", merr)
+				}
+				for round := 0; round < 2; round++ {
+					before := projContact(lc)
+					modified, evs, pan := applyOnce(leng, lenv, lsa, lc, mod)
+					src := fmt.Sprintf("locations/%s/%d/%d", fk[0], vi, round)
+					line := &CLine{Src: src, Ev: "apply", Second: round == 1, Before: before, After: projContact(lc), Events: evs, Modified: modified, Mod: string(mj), Panic: pan, QGroups: queryGroups(lenv, lsa, lc)}
+					lw.write(src, line, func(s string) { line.Src = s })
+					if pan != "" {
+						break
+					}
+				}
+			}
+		}
 	}
 	err = forEachLine(*in, *shard, *nshards, func(i int, data []byte) error {
 		cs := &c03Case{}
